@@ -829,18 +829,57 @@ def r6(report, db, F):
     sd = db.own_method(pci, 'send_with_context')
     if rd is None or sd is None:
         raise AnalysisError('SoundEffectPacket.Pitch codec vanished')
-    ra = aug_scalings(rd)
-    sa = aug_scalings(sd)
     n += 1
-    if len(ra) == 1 and len(sa) == 1 and ra[0][0] == sa[0][0] and \
-            ra[0][2] == sa[0][2] and {ra[0][1], sa[0][1]} == {'Div', 'Mult'}:
-        report.ok(R, 'Pitch: %s by %s under %s on both sides' % (
-            '/ then *', ra[0][2], ra[0][0]))
+    # per path: under which version decisions which factor reaches the value
+    # that is returned (read) / handed to the wire type (send)
+    from .. import shared as _sh
+    from ..callgraph import CallGraph as _CG
+    from ..pathsum import struct as _st, show as _show
+    S = _sh.summariser(db, _CG(db), implicit_raises=False)
+
+    def factor(t, base_ok):
+        """(op, constant) applied to a base value, or ('id', 1)"""
+        while t[0] == 'op' and t[1] in ('int', 'float') and len(t[2]) == 1:
+            t = t[2][0]
+        if t[0] == 'op' and t[1] in ('/', '*') and len(t[2]) == 2 and \
+                t[2][1][0] == 'const' and base_ok(t[2][0]):
+            return (t[1], t[2][1][1])
+        if base_ok(t):
+            return ('id', 1)
+        return None
+
+    def vkey(p):
+        return tuple(sorted((_sh.version_atom(a), pol) for a, pol, _ in
+                            p.conds if _sh.version_atom(a) is not None))
+    rmap, smap = {}, {}
+    for p in S.run(rd):
+        if p.returns:
+            rmap[vkey(p)] = factor(
+                p.value, lambda b: b[0] == 'call' and any(
+                    isinstance(x, tuple) for x in b))
+    sval = ('sym', sd.params[0])
+    for p in S.run(sd):
+        sends = [e for e in p.flat(('call',)) if e.method() == 'send'
+                 and e.args]
+        if len(sends) == 1:
+            smap[vkey(p)] = factor(sends[0].args[0],
+                                   lambda b: _st(b) == sval)
+    inv = {'/': '*', '*': '/', 'id': 'id'}
+    okp = bool(rmap) and set(rmap) == set(smap) and all(
+        rmap[k] is not None and smap[k] is not None
+        and inv[rmap[k][0]] == smap[k][0] and rmap[k][1] == smap[k][1]
+        for k in rmap) and any(v[0] != 'id' for v in rmap.values())
+    if okp:
+        report.ok(R, 'Pitch: on every path the factor applied on read is '
+                  'undone on send under the same version decisions (%d '
+                  'version arms)' % len(rmap))
     else:
         report.violation(R, 'scaling:SoundEffectPacket.Pitch', sd.path,
                          sd.node, sd.qualname,
-                         'read scales %r but send scales %r (guard, op, '
-                         'constant must mirror)' % (ra, sa))
+                         'per version arm, read applies %s but send applies '
+                         '%s: not inverse of each other' % (
+                             sorted((str(k), v) for k, v in rmap.items()),
+                             sorted((str(k), v) for k, v in smap.items())))
     report.floor('scaling codec pairs', n, 5)
 
 
